@@ -41,7 +41,7 @@ def run(ctx):
         for k in range(5 if q else 10):
             mode = rnd.choice(['file', 'pipe', 'pipe', 'short', 'operand', 'throttled'])
             jobs.append((name, d, mode, lbz.feed_pattern(rnd) or ([rnd.choice([1, 3, 4, 5, 65535, 65536, 65537, 70000])], rnd.choice([0, 0, 0.001])),
-                         rnd.choice([1, 2, 4]), rnd.randrange(1, 1 << 30), lbz.sched_env(rnd) if rnd.random() < 0.3 else {}))
+                         rnd.choice([1, 2, 4]), rnd.randrange(1, 1 << 30), lbz.sched_env(rnd) if rnd.random() < 0.6 else {}))
 
     def deliver(args, d, mode, feed, seed, env):
         env = dict(env)
@@ -119,7 +119,11 @@ def run(ctx):
             for k in range(rnd.randint(2, 5)):
                 nm = 'f%d' % k
                 if rnd.random() < 0.5:
-                    data, plain, o = dcorpus.synth_valid(rnd)
+                    if rnd.random() < 0.4:
+                        plain = gen.textlike(rnd, rnd.choice([450000, 900000]))
+                        data = core.run([lb, '-1', '-n', '4'], stdin=plain, timeout=120).out     # 5-9 blocks
+                    else:
+                        data, plain, o = dcorpus.synth_valid(rnd)
                     content, exp = data, plain
                 else:
                     content = rnd.choice(prefixes[:8]) + rnd.randbytes(rnd.choice([0, 3, 65536, 100000]))
@@ -130,7 +134,7 @@ def run(ctx):
                     f.write(content)
                 names.append(nm)
                 expect += exp
-            r = core.run([lb, '-cdf', '-n', '2'] + names, cwd=dd, timeout=200)
+            r = core.run([lb, '-cdf', '-n', str(rnd.choice([1, 2, 4]))] + names, cwd=dd, timeout=200, env=lbz.sched_env(rnd))
             ctx.ev()
             left = sorted(os.listdir(dd))
             shutil.rmtree(dd, ignore_errors=True)
